@@ -98,6 +98,14 @@ def bounded_recheck(unit, units, outdir):
     return 'undecided', 'bounded build failed'
 
 
+def SEARCH_ONLY(unit):
+    """hdr_native does not replay the verifier's counterexample: it is a small-scope search over models that the public API can build
+    (no corrupted type indices, no hand-made header state).  When it finds nothing, nothing is known about a counterexample that
+    needs such a state, so a clean run does NOT demote the refutation (the decision procedure is complete on the extracted text);
+    c18_native enumerates the whole scope of the counterexample sizes and does demote."""
+    return (unit.get('replay') or '').split()[:1] == ['hdr_native']
+
+
 def native_replay(unit, prop, values, outdir):
     prog = unit.get('replay')
     if not prog:
@@ -136,14 +144,14 @@ def triage(unit, units, res, prop, tier='quick'):
         body = 'unit is loop-free: the decision procedure is complete on it, the refutation stands.\n'
         if nat:
             body += '\nNATIVE REPLAY against the real code: %s\n%s\n' % (nat['verdict'], nat['log'][-4000:])
-            if nat['verdict'] == 'clean':
+            if nat['verdict'] == 'clean' and not SEARCH_ONLY(unit):
                 path = write_replay(prop, unit, res, body + '\nverifier output:\n' + tr['out'][-20000:])
                 return {'verdict': 'undecided', 'replay': path,
                         'reason': 'extraction-fidelity: verifier counterexample does not reproduce on the real code (see %s)' % path}
         path = write_replay(prop, unit, res, body + '\nverifier output with counterexample trace:\n' + tr['out'][-30000:])
         # an abstracting rendering (frame / guard / size units) yields a PATH through the function, not an input of the real code
         has_input = (bool(vals) or ('Trace for' in tr['out'])) and not unit.get('abstract')
-        return {'verdict': 'violation', 'replay': (nat or {}).get('file') or path, 'failing_input': has_input, 'reason': 'refuted (loop-free)'}
+        return {'verdict': 'violation', 'replay': ((nat or {}).get('file') if (nat or {}).get('verdict') == 'reproduced' else None) or path, 'failing_input': has_input, 'reason': 'refuted (loop-free)'}
     if blog is None:
         verdict, blog = bounded_recheck(unit, units, outdir)
     if verdict == 'proved':
@@ -159,7 +167,7 @@ def triage(unit, units, res, prop, tier='quick'):
         body = 'invariant-independent bounded re-check (capacity %d, loops unwound): FAILED -- concrete counterexample below.\n' % BCAP
         if nat:
             body += '\nNATIVE REPLAY against the real code: %s\n%s\n' % (nat['verdict'], nat['log'][-4000:])
-            if nat['verdict'] == 'clean':
+            if nat['verdict'] == 'clean' and not SEARCH_ONLY(unit):
                 path = write_replay(prop, unit, res, body + '\nverifier output:\n' + blog[-20000:])
                 return {'verdict': 'undecided', 'replay': path,
                         'reason': 'extraction-fidelity: verifier counterexample does not reproduce on the real code (see %s)' % path}
@@ -170,9 +178,9 @@ def triage(unit, units, res, prop, tier='quick'):
                 res['failed'].append({'obligation': m.group(1) + ' [bounded re-check, capacity %d]' % BCAP, 'text': m.group(2)})
         path = write_replay(prop, unit, res, body + '\nobligations failing in the bounded run:\n' + '\n'.join(failed_b[:20]) +
                             '\n\nverifier output with counterexample trace:\n' + blog[-30000:])
-        if nat and nat.get('file'):
+        if nat and nat.get('file') and nat.get('verdict') == 'reproduced':
             # one replay artefact: the native reproduction, followed by the verifier's side
             open(nat['file'], 'a').write('\n\n==== verifier side ====\n' + open(path).read())
-        return {'verdict': 'violation', 'replay': (nat or {}).get('file') or path, 'failing_input': not unit.get('abstract'), 'reason': 'refuted; bounded re-check gives a counterexample'}
+        return {'verdict': 'violation', 'replay': ((nat or {}).get('file') if (nat or {}).get('verdict') == 'reproduced' else None) or path, 'failing_input': not unit.get('abstract'), 'reason': 'refuted; bounded re-check gives a counterexample'}
     path = write_replay(prop, unit, res, 'bounded re-check gave no verdict:\n' + blog[-8000:])
     return {'verdict': 'undecided', 'replay': path, 'reason': 'refuted under loop contracts, bounded re-check undecided'}
